@@ -32,7 +32,13 @@ TAGS = ["!t0", "!t1", "!t2", "tag:yaml.org,2002:int", None]
 PREFIXES = ["!p0/", "!p1/", None]
 PATTERNS = [("!i0", "^zz0$", "z"), ("!i1", "^zz[0-9]$", "z"), ("!i2", "^yq0$", "y"), ("!i3", "^[0-9]+x$", "0123456789")]
 FIRSTS = ["own", "none", "wide"]
-PATHS = [(("k0",), "scalar"), (("k1", 0), None), ((), "mapping")]
+# (path as the caller writes it, kind, the (node_check, index_check) pairs the documented rule turns it into; node classes are
+# written "M" / "Q" / "S" here).  A bare element is an index check; a 2-tuple is (node check, index check); a 1-tuple is
+# (node check,) and matches any KEY of that node; None / False match any value.
+PATHS = [(("k0",), "scalar", ((None, "k0"),)), (("k1", 0), None, ((None, "k1"), (None, 0))), ((), "mapping", ()),
+         (((dict, "k1"), (list, 1)), None, (("M", "k1"), ("Q", 1))), (((dict,),), "scalar", (("M", True),)),
+         ((None, None), None, ((None, None), (None, None))), (((list, None),), None, (("Q", None),)), ((["M"], ), None, (("M", True),)),
+         (((None, False),), "sequence", ((None, False),))]
 
 
 class P0:
@@ -207,12 +213,14 @@ def apply_op(w, op):
         _, i, k = op
         allc = w.classes()
         cls = allc[i % len(allc)]
-        path, nk = PATHS[k % len(PATHS)]
+        path, nk, norm = PATHS[k % len(PATHS)]
         nodes = yaml.nodes
-        kindcls = {"scalar": nodes.ScalarNode, "mapping": nodes.MappingNode, None: None}[nk]
+        ncls = {"M": nodes.MappingNode, "Q": nodes.SequenceNode, "S": nodes.ScalarNode, None: None}
+        kindcls = {"scalar": nodes.ScalarNode, "mapping": nodes.MappingNode, "sequence": nodes.SequenceNode, None: None}[nk]
         tag = "!path%d" % (k % len(PATHS))
-        cls.add_path_resolver(tag, list(path), {"scalar": str, "mapping": dict, None: None}[nk])
-        w.model.register(cls, "path", (tuple((None, p) for p in path), kindcls), tag)
+        given = [([ncls[e[0]]] if isinstance(e, list) else e) for e in path]     # ["M"] stands for a 1-element LIST [MappingNode]
+        cls.add_path_resolver(tag, given, {"scalar": str, "mapping": dict, "sequence": list, None: None}[nk])
+        w.model.register(cls, "path", (tuple((ncls[a], b) for a, b in norm), kindcls), tag)
         w.used_paths.add(k % len(PATHS))
         w.targets.add(cls)
         return "%s.add_path_resolver(%r, %r)" % (cls.__name__, tag, path)
@@ -403,6 +411,39 @@ def outcome_of_ctor(fn):
     return None
 
 
+def predict_path_tag(table, node, ancestry, default):
+    """The documented path-resolver rule, applied to one node: a registered (path, kind) applies when the path is as long as
+    the node's depth, every (node check, index check) pair accepts the corresponding (parent, index) step and kind is None or
+    the node's class; among several the exact kind wins over None, the later registration over the earlier."""
+    hits = {}
+    for (path, kind), tag in table.items():
+        if len(path) != len(ancestry):
+            continue
+        ok = True
+        for (node_check, index_check), (parent, index) in zip(path, ancestry):
+            if isinstance(node_check, str):
+                ok = parent.tag == node_check
+            elif node_check is not None:
+                ok = isinstance(parent, node_check)
+            if ok and index_check is True:
+                ok = index is None
+            elif ok and (index_check is False or index_check is None):
+                ok = index is not None
+            elif ok and isinstance(index_check, str):
+                ok = getattr(index, "id", None) == "scalar" and index.value == index_check
+            elif ok and isinstance(index_check, int):
+                ok = index_check == index and not hasattr(index, "id")
+            if not ok:
+                break
+        if ok:
+            hits[kind] = tag
+    if type(node) in hits:
+        return hits[type(node)]
+    if None in hits:
+        return hits[None]
+    return default
+
+
 def check_behaviour(w, failures, step, desc):
     yaml = w.yaml
     evals = 0
@@ -540,16 +581,20 @@ def check_behaviour(w, failures, step, desc):
             except Exception as e:
                 failures.append(Failure("probe-compose-raised:%s" % exc_key(e), "path probe on %s: %s" % (cls.__name__, exc_msg(e))))
                 return evals
-            implicit = w.model.effective(cls, "implicit") or {}
-            want_root = table.get(((), nodes.MappingNode), T + "map")
-            want_k0 = table.get((((None, "k0"),), nodes.ScalarNode), T + "str")
-            want_item = table.get((((None, "k1"), (None, 0)), None), T + "str")
-            got_root = root.tag
-            got_k0 = root.value[0][1].tag
-            got_item = root.value[1][1].value[0].tag
-            if (got_root, got_k0, got_item) != (want_root, want_k0, want_item):
-                failures.append(Failure("behaviour:path-resolver", "after step %d (%s): %s resolves (root, k0, k1[0]) to %r, the rule predicts %r" % (
-                    step, desc, cls.__name__, (got_root, got_k0, got_item), (want_root, want_k0, want_item))))
+            (k0, v0), (k1, seq) = root.value
+            # every node of the probe with its ancestry [(parent node, index)]: index = None for a mapping key, the key node
+            # for a mapping value, the position for a sequence item
+            places = [("root", root, []), ("key k0", k0, [(root, None)]), ("value of k0", v0, [(root, k0)]), ("key k1", k1, [(root, None)]),
+                      ("value of k1", seq, [(root, k1)]), ("k1[0]", seq.value[0], [(root, k1), (seq, 0)]), ("k1[1]", seq.value[1], [(root, k1), (seq, 1)])]
+            want, got = [], []
+            for name, node, anc in places:
+                default = {"scalar": T + "str", "sequence": T + "seq", "mapping": T + "map"}[node.id]
+                want.append((name, predict_path_tag(table, node, anc, default)))
+                got.append((name, node.tag))
+            if got != want:
+                bad = [(g, x) for g, x in zip(got, want) if g != x][0]
+                failures.append(Failure("behaviour:path-resolver", "after step %d (%s): %s resolves %s to %r, the rule predicts %r\ntable=%.300r" % (
+                    step, desc, cls.__name__, bad[0][0], bad[0][1], bad[1][1], list(table.items()))))
                 return evals
     return evals
 
